@@ -37,7 +37,7 @@ func init() {
 // Op is one step of an abstract program. Selectors (H, Key) are resolved modulo what exists
 // at run time, so every sub-list of a program is again a valid program.
 type Op struct {
-	K      string `json:"k"`                // begin set del get getr keys commit rollback gc reopen otherdb burst delburst txburst
+	K      string `json:"k"`                // begin set del get getr keys commit rollback gc reopen otherdb burst delburst txburst files
 	H      int    `json:"h,omitempty"`      // actor selector: 0 = autocommit, else the (H-1 mod n)-th open transaction
 	Last   bool   `json:"last,omitempty"`   // address the most recently begun transaction that is still open
 	Late   bool   `json:"late,omitempty"`   // C13: address an ended transaction instead of an open one
@@ -997,6 +997,77 @@ func (w *World) apply(i int, op Op) bool {
 			w.bulkBytes[id] += len(key)
 		}
 		w.Stats["txburst"]++
+	case "files":
+		// N files are open at the same time (one caller), written alternately and closed in reverse or
+		// forward order: every Close must return (a Close that has not returned after 30 s never will)
+		id, ok := w.pickActor(op)
+		if !ok {
+			return true
+		}
+		n := op.N
+		if n < 2 {
+			n = 2
+		}
+		type openFile struct {
+			f   fs_db.File
+			key string
+			v   model.Val
+			b   []byte
+		}
+		var fs []openFile
+		for j := 0; j < n; j++ {
+			key := fmt.Sprintf("file-%d-%d", i, j)
+			v := model.Val{Len: 3 + (op.Len+j*1000)%5000, Seed: uint32(i*100000 + 50000 + j)}
+			f, err := w.store(id).Create(w.ctx, key)
+			if err != nil {
+				w.R.Failf("%s: %s Create(%q) failed: %v", what, actorName(w, id), key, err)
+				return false
+			}
+			b := model.Bytes(v)
+			w.noteContent(b, fmt.Sprintf("content written at step %d to %q by %s", i, key, actorName(w, id)))
+			fs = append(fs, openFile{f, key, v, b})
+		}
+		for off := 0; ; off += 700 { // round robin, 700 bytes at a time
+			wrote := false
+			for _, of := range fs {
+				if off < len(of.b) {
+					end := min(off+700, len(of.b))
+					if _, err := of.f.Write(append([]byte(nil), of.b[off:end]...)); err != nil {
+						w.R.Failf("%s: Write to %q failed: %v", what, of.key, err)
+						return false
+					}
+					wrote = true
+				}
+			}
+			if !wrote {
+				break
+			}
+		}
+		for j := range fs {
+			of := fs[j]
+			if op.Len%2 == 0 {
+				of = fs[len(fs)-1-j]
+			}
+			done := make(chan error, 1)
+			go func() { done <- of.f.Close() }()
+			select {
+			case err := <-done:
+				if err != nil {
+					w.R.Failf("%s: Close of %q failed: %v", what, of.key, err)
+					return false
+				}
+			case <-time.After(30 * time.Second):
+				w.R.Failf("%s: Close of %q (file %d of %d open at the same time, closed %s) has not returned after 30 s", what, of.key, j+1, len(fs), map[bool]string{true: "last-opened first", false: "first-opened first"}[op.Len%2 == 0])
+				return false
+			}
+			w.M.Write(id, of.key, of.v)
+		}
+		for _, of := range fs {
+			if !w.checkRead(id, of.key, false, what+": reading back "+of.key) {
+				return false
+			}
+		}
+		w.Stats["files-open-together"]++
 	case "gc":
 		if w.Cont == nil {
 			return true
@@ -1061,6 +1132,18 @@ func (w *World) ApplyDry(i int, op Op) {
 			w.noteContent(model.Bytes(v), fmt.Sprintf("content written at step %d to %q by %s", i, key, actorName(w, id)))
 		}
 		w.M.Write(id, key, v)
+	case "files":
+		id, ok := w.pickActor(op)
+		if !ok {
+			return
+		}
+		n := max(op.N, 2)
+		for j := 0; j < n; j++ {
+			key := fmt.Sprintf("file-%d-%d", i, j)
+			v := model.Val{Len: 3 + (op.Len+j*1000)%5000, Seed: uint32(i*100000 + 50000 + j)}
+			w.noteContent(model.Bytes(v), fmt.Sprintf("content written at step %d to %q by %s", i, key, actorName(w, id)))
+			w.M.Write(id, key, v)
+		}
 	case "txburst":
 		id, ok := w.pickActor(op)
 		if !ok {
